@@ -72,7 +72,7 @@ CHECKS.update({
             "template guard recognition, impl inventory and dominance on MIR, enum representation matrix",
             "Decides: `?` can only be emitted under the IsOption bound or the IS_OPTION test, IsOption/IS_OPTION exist only for Option<T> and are not "
             "forwarded by wrapper macros (R1); every parsed field/variant attribute has its skip flag branched on and nothing is emitted on the "
-            "skip side (R2); tag literals / union arms per representation cell are exactly serde's (R3, shared with C01); the (struct optional_fields, field optional) table and the OptionInnerType selection by cells (R6); naming precedence and raw identifiers (R7, R8, shared). Required-ness beyond `?`, "
+            "skip side (R2); tag literals / union arms per representation cell are exactly serde's (R3, shared with C01); the (struct optional_fields, field optional) table and the OptionInnerType selection by cells (R6); naming precedence and raw identifiers (R7, R8, shared); operands of ` & ` are atomic (R9; one known finding: the internally tagged payload). Required-ness beyond `?`, "
             "tuple lengths and leaf value ranges are NOT decided."),
     "C03": ("DESIGN.md section 3/C03",
             "template/dependency pairing on the syntax tree (path-insensitive and per decision cell), must-pass-through and origin analysis on MIR",
@@ -107,7 +107,7 @@ CHECKS.update({
             "Decides: a field's raw type is read only through type_as (R1); every representation arm of format_variant uses the payload resolved "
             "from the variant attributes (R2); per (type, flatten, inline) cell the three field formatters emit literal/inline_flattened/inline/"
             "name and record none/append_from/append_from/push on the same variable (R3); decl_concrete shape and placeholder scope (R4); "
-            "reference/dependency pairing (R5); enum inline_flattened is always parenthesised (R6); named() composition table (R7); `_` in `as` types substituted at every depth (R8); object-merge anchoring and paren stripping (R9, R10 = C04.R6/R7); wrapper/shadow delegation of inline_flattened (R11 = C12.R1). Denotational equality of bindings is NOT decided."),
+            "reference/dependency pairing (R5); enum inline_flattened is always parenthesised (R6); named() composition table (R7); `_` in `as` types substituted at every depth (R8); object-merge anchoring and paren stripping (R9, R10 = C04.R6/R7); wrapper/shadow delegation of inline_flattened (R11 = C12.R1); operands of ` & ` are atomic (R12 = C02.R9; known finding). Denotational equality of bindings is NOT decided."),
     "C15": ("DESIGN.md section 3/C15",
             "field-level information-flow (role classification of every read of a docs field), sanitizer-on-path rule on MIR, dominance ordering",
             "Decides: doc text flows only into documentation sinks (R1); both member templates carry docs in the first slot and docs precede "
